@@ -5,6 +5,7 @@ import (
 	"fmt"
 	"math/rand"
 	"strings"
+	"time"
 
 	"verif/gotools/agenth"
 	. "verif/gotools/hlib"
@@ -13,7 +14,7 @@ import (
 func main() { Main("core", run) }
 
 func run(c *Ctx) error {
-	c.Rule = "one case = one history of 12..60 operations on a real Agent (random configuration; local/remote candidates incl. duplicates, peer-reflexive sources, blocked and TCP candidates; Start; ticks; virtual-time advances; answers to the agent's own requests; peer requests incl. nominations/renominations/role conflicts; ~25% deliberately invalid injections: wrong/absent username or integrity, stale generation, wrong source, wrong local candidate, unknown or duplicate transaction, error class, non-Binding method; data in/out; Restart; Close). Non-trivial = the history reached a selected pair or contained at least one deliberately invalid injection; distinct = distinct case lines."
+	c.Rule = "one case = one history of 12..60 operations on a real Agent (random configuration; local/remote candidates incl. duplicates, peer-reflexive sources, blocked and TCP candidates; Start; ticks; virtual-time advances; answers to the agent's own requests; peer requests incl. nominations/renominations/role conflicts; ~25% deliberately invalid injections: wrong/absent username or integrity, stale generation, wrong source, wrong local candidate, unknown or duplicate transaction, error class, non-Binding method; data in/out; Restart; Close); half of the histories start with a scripted scenario (agenth/scenario.go: connect, silence past the disconnected/failed timeouts, restart with unchanged peer credentials + answers to requests of the ended generation, restart while Disconnected, failure by the checking deadline then restart, late responses, two transports on one remote address, nominations on a second pair before it is valid, superseded peer-reflexive candidate, zero failed timeout, non-Binding indications) and continue randomly. Non-trivial = the history reached a selected pair or contained at least one deliberately invalid injection; distinct = distinct case lines."
 	if c.Replay != "" {
 		for _, toks := range c.ReplayLines() {
 			if err := replayHistory(c, toks); err != nil {
@@ -49,15 +50,28 @@ func run(c *Ctx) error {
 func oneHistory(c *Ctx, seed int64) (bool, error) {
 	r := rand.New(rand.NewSource(seed))
 	cfg := agenth.RandomConfig(r)
+	scen := ""
+	if r.Intn(2) == 0 {
+		scen = agenth.Scenarios[1+r.Intn(len(agenth.Scenarios)-1)]
+	}
+	if scen == "zero_failed_timeout" { // failed timeout disabled, disconnected timeout not
+		cfg.Failed, cfg.Disc = 0, []time.Duration{-1, 10 * agenth.Grid, 20 * agenth.Grid}[r.Intn(3)]
+	}
 	sim, err := agenth.NewSim(cfg)
 	if err != nil {
 		return false, err
 	}
 	defer sim.Close()
 	g := agenth.NewGen(r, sim)
+	if scen != "" {
+		g.Plan(scen, r.Intn(2) == 0)
+	}
 	caseT := append([]string{}, sim.CfgToks()...)
 	var obsT []string
 	nops := 12 + r.Intn(49)
+	if scen != "" {
+		nops += 12
+	}
 	tags := map[string]bool{}
 	afterClose := 0
 	for i := 0; i < nops; i++ {
@@ -98,6 +112,10 @@ func oneHistory(c *Ctx, seed int64) (bool, error) {
 	}
 	if cfg.Renomination {
 		tag += ",renom"
+	}
+	if scen != "" {
+		tag += ",s:" + scen
+		c.Count("scenario:" + scen)
 	}
 	_ = strings.Join
 	c.Emit(tag, caseT, obsT, g.ReachedSelected || g.Mutated > 0)
